@@ -433,6 +433,10 @@ OpClauses(e, pre, post) ==
     [] e.op = "remove" -> RemoveC(e, pre, post)
     [] e.op = "clear"  -> ClearC(e, pre, post)
     [] e.op = "eq"     -> EqC(e, pre, post)
+    [] e.op = "twin_eq" ->       \* C13: the shared operators == and != answer alike in both classes
+         Cl("C13.eq_agrees", TRUE, e.o.eq_a = e.o.eq_s)
+      \o Cl("C13.ne_agrees", TRUE, e.o.ne_a = e.o.ne_s)
+      \o Cl("C13.ne_is_not_eq", TRUE, e.o.ne_a # e.o.eq_a /\ e.o.ne_plain # e.o.eq_plain)
     [] e.op = "noop"   -> None
     [] e.op = "render" -> RenderC(e, pre, post)
     [] e.op = "reparse" -> ReparseC(e, pre, post)
